@@ -34,7 +34,12 @@ def DATE(
     # Excel starts counting at 1 and today is inclusive, thus -2
     delta = relativedelta(
         years=year - 1900, months=int(month) - 1, days=int(day) - 1)
-    result = utils.EXCEL_EPOCH + delta
+    try:
+        result = utils.EXCEL_EPOCH + delta
+    except (OverflowError, ValueError):
+        # Outside the years 1 to 9999 that a datetime can hold.
+        raise xlerrors.NumExcelError(
+            f'Date result out of range: {year}, {month}, {day}')
 
     if result < utils.EXCEL_EPOCH:
         raise xlerrors.NumExcelError(
@@ -158,7 +163,12 @@ def EDATE(
         edate-function-3c920eb2-6e66-44e7-a1f5-753ae47ee4f5
     """
     delta = relativedelta(months=int(months))
-    edate = utils.number_to_datetime(int(start_date)) + delta
+    try:
+        edate = utils.number_to_datetime(int(start_date)) + delta
+    except (OverflowError, ValueError):
+        # Outside the years 1 to 9999 that a datetime can hold.
+        raise xlerrors.NumExcelError(
+            f'Date result out of range: {start_date}, {months}')
 
     if edate < utils.EXCEL_EPOCH:
         raise xlerrors.NumExcelError(
@@ -180,7 +190,12 @@ def EOMONTH(
         eomonth-function-7314ffa1-2bc9-4005-9d66-f49db127d628
     """
     delta = relativedelta(months=int(months))
-    edate = utils.number_to_datetime(int(start_date)) + delta
+    try:
+        edate = utils.number_to_datetime(int(start_date)) + delta
+    except (OverflowError, ValueError):
+        # Outside the years 1 to 9999 that a datetime can hold.
+        raise xlerrors.NumExcelError(
+            f'Date result out of range: {start_date}, {months}')
 
     if edate < utils.EXCEL_EPOCH:
         raise xlerrors.NumExcelError(
